@@ -21,7 +21,7 @@ def menu(nc):
     return out
 
 
-def mk(name, shares, extra_market=False, index_first=False, shock=True, drift=True, noexec_first=False, nested=False):
+def mk(name, shares, extra_market=False, index_first=False, shock=True, drift=True, noexec_first=False, nested=False, arb=False):
     nc = len(shares)
     markets = [dict(name="M%d" % i, shares=sh, drift=(2.0 ** -7 if i == 1 and drift else 0.0)) for i, sh in enumerate(shares)]
     markets.append(dict(name="IDX", cls="ProbeIndexMarket", components=["M%d" % i for i in range(nc)]))
@@ -66,8 +66,16 @@ def mk(name, shares, extra_market=False, index_first=False, shock=True, drift=Tr
                 ms.remove(m)
                 ms.insert(0, m)
 
-    return Scenario(name, mkcfg(sessions, markets=markets, agents=ags, events=ev), observer=obs, after_clock=after_clock,
-                    post_setup=post_setup)
+    cfg = mkcfg(sessions, markets=markets, agents=ags, events=ev)
+    if arb:
+        # built-in agents that read the index market while the run goes on: an arbitrage agent that may trade the index
+        # and only its first component (threshold too high to ever trade), and an FCN agent on the index
+        cfg["ARB"] = {"class": "ArbitrageAgent", "markets": ["IDX", "M0"], "cashAmount": 10000, "assetVolume": 50, "orderVolume": 1,
+                      "orderThresholdPrice": 1e9}
+        cfg["simulation"]["agents"].append("ARB")
+        for s_ in cfg["simulation"]["sessions"]:
+            s_["maxHighFrequencyOrders"] = 1
+    return Scenario(name, cfg, observer=obs, after_clock=after_clock, post_setup=post_setup)
 
 
 def scenarios(tier):
@@ -83,6 +91,8 @@ def scenarios(tier):
     sc["noexec_first:2-5-1"] = mk("noexec_first:2-5-1", (2, 5, 1), noexec_first=True)
     sc["nested:1-2"] = mk("nested:1-2", (1, 2), nested=True)
     sc["nested:2-5-1+X"] = mk("nested:2-5-1+X", (2, 5, 1), nested=True, extra_market=True, noexec_first=True)
+    sc["arbitrage_agent_partial_access:2-2"] = mk("arbitrage_agent_partial_access:2-2", (2, 2), arb=True)
+    sc["arbitrage_agent_partial_access:5-5-5+X"] = mk("arbitrage_agent_partial_access:5-5-5+X", (5, 5, 5), arb=True, extra_market=True, noexec_first=True)
     sc["index_first:1-2-5"] = mk("index_first:1-2-5", (1, 2, 5), index_first=True)
     sc["index_first:2-5+X"] = mk("index_first:2-5+X", (2, 5), extra_market=True, index_first=True)
     return sc
